@@ -122,6 +122,8 @@ Definition titem_ok (x : titem) : bool :=
 Definition own_single (st : stage) (ee : bool) : bool :=
   let '(kind, b, _, _, _) := st in String.eqb kind "Single" && String.eqb b (ttt_tag ee).
 
+Definition msg_keys : list string := keys_of KMsg ++ ["MSGID"].
+
 Definition init_keys : list string := ["STATE_0"; "state_0"].
 
 Definition item16_ok (it : item16) : bool :=
@@ -137,6 +139,9 @@ Definition item16_ok (it : item16) : bool :=
   | TransBlock ib ie body =>
       block_lines_ok pst_tags (ib ++ begin_line "PER_STATETRANSITION")%string (ie ++ end_line "PER_STATETRANSITION")%string
       && forallb titem_ok body
+  | MsgBlock ib ie sfx body =>
+      block_lines_ok (stage_tags KMsg) (ib ++ begin_line "PER_MSG")%string (ie ++ "<<<PER_MSG_END>>>" ++ sfx ++ nl_str)%string
+      && forallb (body_line_ok msg_keys) body
   | InitLine l => line_ok l && forallb (closed_seg init_keys) l && load_inert (render_line l)
   | UserLine l => plain_line_ok l
   | TableLine pre ee =>
@@ -172,12 +177,17 @@ Definition item16_wf (e : elements) (it : item16) : bool :=
   | Block k _ _ body => block_wf (table_of_kind k) (items_of e k) body
   | SigBlock _ _ body => block_wf sig_table (el_sigs e) body
   | TransBlock _ _ _ => tps_wf (el_tps e)
+  | MsgBlock _ _ _ body => forallb (fun n => mem String.eqb n (el_msgids e)) (el_msgs e) && block_wf (msg_table (el_msgids e)) (el_msgs e) body
   | InitLine _ => forallb (fun kv => no_lg (snd kv)) (init_table (el_first e))
   | UserLine l => for_plain (ref_line (el_user e) l)
   | TableLine pre ee => forallb no3 (sml_print (el_states e) (el_rows e) ee pre)
   end.
 
 Definition wf_elements16 (t : template16) (e : elements) : bool := forallb (item16_wf e) t.
+
+(* every user line, after the substitution of the assignment's values and the defaults, has no tag left *)
+Definition user_lines_closed (a : list (string * string)) (t : template16) : bool :=
+  forallb (fun it => match it with UserLine l => no3 (ref_line a l) | _ => true end) t.
 
 (* no line with user tags outside blocks (then the result does not depend on the user-tag assignment) *)
 Definition no_user_lines (t : template16) : bool := forallb (fun it => match it with UserLine _ => false | _ => true end) t.
@@ -186,7 +196,7 @@ Definition no_user_lines (t : template16) : bool := forallb (fun it => match it 
 Definition elements_of_model (m : smodel) : elements :=
   {| el_states := sm_states m; el_events := sm_events m; el_actions := sm_actions m; el_guards := sm_guards m;
      el_sigs := map snd (sm_actionsigs m);
-     el_structs := if_structs m; el_protos := if_protos m; el_msgs := if_msgs m; el_tps := sm_tps m; el_first := sm_first m; el_rows := sm_rows m; el_user := [] |}.
+     el_structs := if_structs m; el_protos := if_protos m; el_msgs := if_msgs m; el_tps := sm_tps m; el_first := sm_first m; el_rows := sm_rows m; el_user := []; el_msgids := if_msgids m |}.
 
 Definition engine16 (m : smodel) (dict : list (string * string)) (t : template16) : option string :=
   generate_file m dict [] (render16 t).
